@@ -1044,6 +1044,27 @@ func checkMux(c *checkCtx) {
 				"stream index %d (id %d), %s reader: [%s] %s", f.Stream, f.ID, f.Side, f.Kind, f.Msg)
 		}
 	}
+	// directed: a deep backlog in the queue (consumer held), then the stream's tail switches to the socket and the stream closes
+	if replay == nil {
+		nb := c.pick(6, 80)
+		for i := 0; i < nb && failed < 5; i++ {
+			viol, inconcl, st := runMuxDeepBacklog(c, i)
+			name := fmt.Sprintf("deep-backlog-%d", i)
+			c.eval(1)
+			if inconcl != "" {
+				c.inconclusiveCase(name, inconcl)
+				continue
+			}
+			c.count("deep-backlog executions (consumer held, tail of the stream on the socket)", 1)
+			c.count("deep-backlog: elements queued while the consumer was held", st.backlog)
+			c.count("end-of-stream positions checked", st.eos)
+			c.nontrivial(fmt.Sprintf("deep-backlog/%s/%d", st.variant, st.backlog/1000))
+			if len(viol) > 0 {
+				failed++
+				c.violation(name, map[string]interface{}{"index": i, "variant": st.variant, "backlog": st.backlog, "violations": viol}, "%s", viol[0])
+			}
+		}
+	}
 	if c.counter("flushes through the socket fallback") == 0 || c.counter("flushes through share memory") == 0 {
 		c.noObservation("no execution mixed both transports")
 	}
@@ -1062,4 +1083,196 @@ func muxRank(kind string) int {
 		return 2
 	}
 	return 3
+}
+
+// ---------------------------------------------------------------------------------------------------------
+// deep backlog: while the consumer's event loop is held, one stream queues thousands of messages through share memory; then share
+// memory is exhausted, the next message of the same stream travels through the socket and (variant) the stream is closed, the
+// close notification following on the socket. The control connection then carries [polling][data][close] while the queue holds
+// the whole backlog: the reader must still see every byte in order and the end only after the last byte.
+
+type muxBacklogStats struct {
+	variant string
+	backlog int64
+	eos     int64
+}
+
+func runMuxDeepBacklog(c *checkCtx, idx int) (viol []string, inconcl string, st muxBacklogStats) {
+	rng := caseRand(c.seed, 270000+idx)
+	n := []int{300, 900, 1500, 2500, 3500, 5000}[rng.Intn(6)] + rng.Intn(300)
+	st.variant = []string{"socket-tail-then-close", "socket-tail"}[rng.Intn(2)]
+	memfd := rng.Intn(2) == 0
+	const msz = 16
+	p, err := newSessionPair(pairOpt{memfd: memfd, queueCap: 8192, bufCap: 4 << 20, sizes: smallSizes(64, 70, 4096, 30)})
+	if err != nil {
+		return nil, "pair: " + err.Error(), st
+	}
+	key := uint64(0xB00C0000) + uint64(idx)
+	violate := func(format string, a ...interface{}) {
+		if len(viol) < 4 {
+			viol = append(viol, fmt.Sprintf(format, a...))
+		}
+	}
+	cl, err := p.client.OpenStream()
+	if err != nil {
+		p.close()
+		return nil, "open: " + err.Error(), st
+	}
+	var flushed uint64 // bytes whose Flush returned nil
+	write := func() error {
+		buf := make([]byte, msz)
+		fillKeyed(buf, key, flushed)
+		if _, err := cl.BufferWriter().WriteBytes(buf); err != nil {
+			return err
+		}
+		if err := cl.Flush(false); err != nil {
+			return err
+		}
+		flushed += msz
+		return nil
+	}
+	if err := write(); err != nil {
+		p.close()
+		return nil, "first flush: " + err.Error(), st
+	}
+	sv := p.serverStream(cl.StreamID(), 5*time.Second)
+	if sv == nil {
+		p.close()
+		return nil, "server stream did not appear", st
+	}
+	total := uint64(n+2) * msz
+	type rdResult struct {
+		pos      uint64
+		err      error
+		mismatch int64
+	}
+	rdDone := make(chan rdResult, 1)
+	var rdPos uint64
+	go func() {
+		r := rdResult{mismatch: -1}
+		for {
+			if st.variant == "socket-tail" && r.pos >= total {
+				break
+			}
+			sv.SetReadDeadline(time.Now().Add(40 * time.Second))
+			b, err := sv.BufferReader().ReadBytes(msz)
+			if err != nil {
+				r.err = err
+				break
+			}
+			if i := checkKeyed(b, key, r.pos); i >= 0 && r.mismatch < 0 {
+				r.mismatch = int64(r.pos) + int64(i)
+			}
+			r.pos += msz
+			atomic.StoreUint64(&rdPos, r.pos)
+			sv.ReleaseReadAndReuse()
+		}
+		rdDone <- r
+	}()
+	finish := func() {
+		// the reader leaves by itself (end of stream, target reached or read deadline); the pair is closed only afterwards (F2)
+		select {
+		case <-rdDone:
+		case <-time.After(60 * time.Second):
+		}
+		p.close()
+	}
+	srvQ := p.server.queueManager.recvQueue
+	if !waitUntil(5*time.Second, func() bool {
+		return atomic.LoadUint64(&rdPos) == msz && fenceOnce(5*time.Second) && srvQ.size() == 0 && !srvQ.consumerIsWorking()
+	}) {
+		cl.Close()
+		finish()
+		return nil, "consumer did not go idle after the first message", st
+	}
+	hold := make(chan struct{})
+	held := make(chan struct{})
+	loopRun(func() { close(held); <-hold })
+	select {
+	case <-held:
+	case <-time.After(10 * time.Second):
+		close(hold)
+		cl.Close()
+		finish()
+		return nil, "event loop could not be parked", st
+	}
+	released := false
+	release := func() {
+		if !released {
+			released = true
+			close(hold)
+		}
+	}
+	var werr error
+	for i := 0; i < n && werr == nil; i++ {
+		werr = write()
+	}
+	st.backlog = srvQ.size()
+	var hoarded [][]*bufferSlice
+	bm := p.client.bufferManager
+	fbBefore := atomic.LoadUint64(&p.client.stats.fallbackWriteCount)
+	if werr == nil {
+		for i := range bm.lists {
+			hoarded = append(hoarded, hoard(bm, i, 1<<30))
+		}
+		werr = write() // share memory exhausted: this message travels through the socket
+	}
+	fb := atomic.LoadUint64(&p.client.stats.fallbackWriteCount) - fbBefore
+	closedAt := flushed
+	if werr == nil && st.variant == "socket-tail-then-close" {
+		cl.Close()
+	}
+	for _, h := range hoarded {
+		unhoard(bm, h)
+	}
+	release()
+	if werr != nil {
+		cl.Close()
+		finish()
+		return nil, "write during the held phase failed: " + werr.Error(), st
+	}
+	if fb == 0 {
+		cl.Close()
+		finish()
+		return nil, "the tail message did not travel through the socket", st
+	}
+	var r rdResult
+	select {
+	case r = <-rdDone:
+		rdDone <- r
+	case <-time.After(50 * time.Second):
+		cl.Close()
+		finish()
+		return nil, "reader did not finish within 50 s", st
+	}
+	if st.variant == "socket-tail" {
+		cl.Close()
+	}
+	finish()
+	if r.mismatch >= 0 {
+		violate("[mismatch] deep backlog of %d queue elements followed by a message on the socket: the reader got a wrong byte at position %d of %d (message %d): bytes of "+
+			"the stream were delivered out of order", st.backlog, r.mismatch, closedAt, r.mismatch/msz)
+	}
+	if st.variant == "socket-tail-then-close" {
+		st.eos = 1
+		switch {
+		case r.err == nil:
+		case isClosedStreamErr(r.err) || r.err == ErrEndOfStream:
+			if r.pos < closedAt {
+				violate("[eos-overtook-data] end of stream (%v) reported at position %d but the peer had flushed %d bytes successfully before Close (backlog %d elements)",
+					r.err, r.pos, closedAt, st.backlog)
+			}
+		case r.err == ErrTimeout:
+			if len(viol) == 0 {
+				return nil, fmt.Sprintf("reader timed out at position %d of %d", r.pos, closedAt), st
+			}
+		default:
+			if len(viol) == 0 {
+				return nil, fmt.Sprintf("reader failed with %v at position %d of %d", r.err, r.pos, closedAt), st
+			}
+		}
+	} else if r.err != nil && len(viol) == 0 {
+		return nil, fmt.Sprintf("reader failed with %v at position %d of %d", r.err, r.pos, total), st
+	}
+	return viol, "", st
 }
